@@ -33,7 +33,7 @@ def main():
             out[name] = res
         finally:
             subprocess.run(["git", "-C", "/repo", "worktree", "remove", "--force", target], check=False)
-            subprocess.run("rm -rf /verif/build-alt-* /verif/out-alt-*", shell=True)
+            suf = __import__("hashlib").md5(os.path.realpath(target).encode()).hexdigest()[:6]; subprocess.run("rm -rf /verif/build-alt-%s /verif/out-alt-%s" % (suf, suf), shell=True)
         json.dump(out, open(rp, "w"), indent=1, sort_keys=True)
     return 0
 sys.exit(main())
